@@ -1,3 +1,4 @@
 import GGen.Moves
 import GGen.CacheKeys
 import GGen.JumpStep
+import GGen.PairGuard
